@@ -1404,10 +1404,12 @@ impl Stdfs {
     /// ```
     pub fn remove<T: AsRef<Path>>(path: T) -> RvResult<()> {
         let path = Stdfs::abs(path)?;
-        if let Ok(meta) = fs::metadata(&path) {
-            if meta.is_file() {
+
+        // Act on the entry itself, a link is removed never its target
+        if let Ok(meta) = fs::symlink_metadata(&path) {
+            if !meta.is_dir() {
                 fs::remove_file(&path)?;
-            } else if meta.is_dir() {
+            } else {
                 let result = fs::remove_dir(&path);
 
                 // Normalize IO errors
@@ -1438,8 +1440,13 @@ impl Stdfs {
     /// ```
     pub fn remove_all<T: AsRef<Path>>(path: T) -> RvResult<()> {
         let path = Stdfs::abs(path)?;
-        if Stdfs::exists(&path) {
-            fs::remove_dir_all(path)?;
+        if let Ok(meta) = fs::symlink_metadata(&path) {
+            if meta.is_dir() {
+                fs::remove_dir_all(path)?;
+            } else {
+                // a file or a link, the link itself never its target
+                fs::remove_file(path)?;
+            }
         }
         Ok(())
     }
